@@ -436,7 +436,8 @@ impl PacketContents {
     }
     fn can_fit_chunk(&self, data: &[u8], vital: bool) -> bool {
         // current size + chunk header + chunk length
-        self.data.len() + protocol::chunk_header_size(vital) + data.len() <= MAX_PAYLOAD
+        self.data.len() + protocol::chunk_header_size(vital) + data.len()
+            <= MAX_PACKETSIZE - protocol::HEADER_SIZE
             && self.num_chunks < u8::MAX
     }
     fn clear(&mut self) {
